@@ -194,6 +194,8 @@ def run(ctx: Ctx) -> None:
     loops.rule_view_stale(ctx, SRC)
     from ..rules import tableau as _tb
     _tb.rule_sign_carry(ctx, [SRC, STATE])
+    from ..rules import memo
+    memo.rule_memo_sound(ctx, [SRC, STATE])
     numeric.rule_gf2round(ctx, armed=[(SRC, "_graph_finder")],
                           advisory=[(SRC, "_phase_correction"), (LCE, "_solution_basis_finder"), (LCE, "_vec_solution_finder")])
     ctx.floor("flow.missing-return", 25)
@@ -290,6 +292,7 @@ def _diag_view(src: str) -> str:
 
 
 KNOCKOUTS = [
+    Knockout("rep-cache", STATE, sub_once("            self._rep_data = conversion_func(tmp_data)", "            if not hasattr(self, '_memo'):\n                self._memo = {}\n            self._memo[self._rep_type] = tmp_data\n            self._rep_data = self._memo[rep_type] if rep_type in self._memo else conversion_func(tmp_data)"), "table.convert", "not computed from the current data"),
     Knockout("density-signs-ignored", SRC, sub_once("        stabilizer_elem = sign * sfu.get_stabilizer_element_by_string(generator)", "        stabilizer_elem = sfu.get_stabilizer_element_by_string(generator)"), "sign.used", "signs of the generators ignored", on_fixed_only=True),
     Knockout("s-to-g-clifford-arg", STATE, sub_once("            graph_list = rc.stabilizer_to_graph(rep.data.to_stabilizer())", "            graph_list = rc.stabilizer_to_graph(rep.data)"), "call.accepts", "receives a CliffordTableau", on_fixed_only=True),
     Knockout("dm-to-g-array-arg", STATE, sub_once("            new_rep = Graph(nx.from_numpy_array(new_data))", "            new_rep = Graph(new_data)"), "call.accepts", "adjacency array", on_fixed_only=True),
